@@ -168,7 +168,7 @@ def run(report, tier, seed, driver, proofs_ok):
     for d in depths:
         for kind in ("obj", "arr"):
             for where in ("properties", "metadata", "type", "resource-condition", "resource-member", "resource", "modelled-property", "policy-action", "condition-value",
-                          "parameter-default", "parameter-type", "conditions", "mappings", "outputs", "description", "function-body", "resources", "json-text"):
+                          "parameter-default", "parameter-type", "conditions", "mappings", "outputs", "description", "function-body", "resources", "json-text", "ip-property", "ip-condition", "typed-leaf-slots"):
                 deep_ops.append({"op": "parse_deep", "kind": kind, "depth": d, "where": where})
     for w in ([1000, 20000, 200000] if thorough else [1000, 20000]):
         cases.append(("wide-list", {"Resources": {"R": {"Type": "Custom::Wide", "Properties": {"P": ["x"] * w}}}}, 30.0))
